@@ -49,8 +49,9 @@ ASSUMPTIONS = ['scope URIs handed to the RFC 3986 rule are accepted by urlsplit 
                'local services are published with a list of types (publish_service signature); None is modelled as TypeError',
                'metadata versions are non-negative integers (xs:unsignedInt)']
 
-NS_D = wsdimpl.NS_D
-RULES = {m.name: m.value for m in wsdimpl.MatchBy}
+NS_D = 'http://docs.oasis-open.org/ws-dd/ns/discovery/2009/01'   # WS-Discovery 1.1, section 5.1 (not read from the code)
+RULES = {'ldap': NS_D + '/ldap', 'uri': NS_D + '/rfc3986', 'uuid': NS_D + '/uuid', 'strcmp': NS_D + '/strcmp0'}
+IMPL_RULES = {m.name: m.value for m in wsdimpl.MatchBy}   # what the running code uses (translator + model driver)
 
 
 # ---------------------------------------------------------------------------------------------- translator
@@ -67,8 +68,8 @@ def _mk_thread(wsd=None):
 def translate(ctx):
     th = _mk_thread()
     src = ('import SdcModel.Discovery\nnamespace Sdc.Generated.Discovery\nopen Sdc.Discovery\n'
-           f'def rules : Rules :=\n  ⟨{lean_bytes(RULES["ldap"])},\n   {lean_bytes(RULES["uri"])},\n   {lean_bytes(RULES["uuid"])},\n'
-           f'   {lean_bytes(RULES["strcmp"])},\n   {"true" if wsdimpl.allow_missing_app_sequence else "false"}⟩\n'
+           f'def rules : Rules :=\n  ⟨{lean_bytes(IMPL_RULES["ldap"])},\n   {lean_bytes(IMPL_RULES["uri"])},\n   {lean_bytes(IMPL_RULES["uuid"])},\n'
+           f'   {lean_bytes(IMPL_RULES["strcmp"])},\n   {"true" if wsdimpl.allow_missing_app_sequence else "false"}⟩\n'
            f'def knownIdsMaxlen : Nat := {th._known_message_ids.maxlen}\n'
            'end Sdc.Generated.Discovery\n')
     core.write_if_changed(core.GENERATED + '/DiscoveryConsts.lean', src)
@@ -712,7 +713,7 @@ def table_oracle(ctx, node, book, ops):
 # ---------------------------------------------------------------------------------------------- run
 def run(ctx):
     rng = ctx.subrng('c14')
-    lines = ['rules ' + ' '.join(hx(RULES[k]) for k in ('ldap', 'uri', 'uuid', 'strcmp')) + f' {int(bool(wsdimpl.allow_missing_app_sequence))}', f'maxlen {_mk_thread()._known_message_ids.maxlen}']
+    lines = ['rules ' + ' '.join(hx(IMPL_RULES[k]) for k in ('ldap', 'uri', 'uuid', 'strcmp')) + f' {int(bool(wsdimpl.allow_missing_app_sequence))}', f'maxlen {_mk_thread()._known_message_ids.maxlen}']
     expect = ['ok', 'ok']
     cases = [{'op': 'rules'}, {'op': 'maxlen'}]
 
